@@ -201,9 +201,11 @@ def discharge_with_ia(F, an, entries, sites, tree=None, partitions=True):
 
 
 def _one_pass(F, an, entries, sites, tree):
+    an.log_ctx = True
     for e in entries:
         f = F.fns[e]
         an.call_local(e, [None] * f.arg_count)
+    an.log_ctx = False
     # functions reachable only through over-approximated edges (extern callbacks, drop glue) are
     # analysed with unknown arguments
     # A function none of whose call sites is feasible is dead; one that IA did not enter although a live block
